@@ -181,7 +181,7 @@ def _length_width(tree, ob):
                                 ob.site(r, item, '{}.{}: {} travels as {!r}'.format(cnode.name, item.name, pn, el))
                             else:
                                 ob.violate(r, '{}.{}'.format(cnode.name, item.name), "signature {!r}: {} as {!r}".format(sigs[item.name][0], pn, el), 'a transfer length is declared narrower than 64 bits: '
-                                           'a length of 2**32 or more raises OverflowError when the signal is emitted, the transfer never gets that signal', item)
+                                           'a length of 2**32 or more raises OverflowError when the signal is emitted, the transfer never gets that signal', item, sure=True)
     ob.require(n >= 5, 'length elements of signals: {}'.format(n))
 
 
@@ -404,7 +404,7 @@ def c18c(tree, ob):
             kt = Typer(tree, fvk, _param_types(item)).of(key, site)
             if kt == 's':
                 ob.violate(SESS, qual, src(site)[:60], 'the transfer map is keyed by integer ids but is accessed with a text key here: nothing is found / removed, '
-                           'so finished transfers stay listed and later messages for them are accepted', site)
+                           'so finished transfers stay listed and later messages for them are accepted', site, sure=True)
     # the TX map gains entries only when queued
     ins = []
     for item in cls.body:
